@@ -1,13 +1,41 @@
 """C13: decided by the shared cube machinery (see c03.py): instances generated for C13, evaluated on the
-real cubes, every cell judged by TLC against Agg.tla."""
-from . import c03
+real cubes (serially, and with the worker pool engaged under the deterministic scheduler), every block judged by TLC
+against the aggregate of the corresponding 1-D slices (Agg.tla)."""
+import random
+
+from .. import core
+from . import c03, c16
+from ..drivers import pool as pl
 
 OWN = "C13"
 
 
+def pooled_blocks(env, tier):
+    """the same statement with the pool engaged: every block of the pooled result is judged against the contract"""
+    rnd = random.Random(core.SEED + 13)
+    env.srcdir = core.REPO / "src"
+    for q in range(40 if tier == "quick" else 600):
+        kind = rnd.choice(["ccube", "xcube", "xcube"])
+        names = [rnd.choice(c16.CC_FUNCS)]
+        case = pl.scaffold_case(env.gen, rnd, names[0])
+        if case.fact is None:
+            case.fact = env.gen.fact(case.n, K=rnd.choice([1, 2]), small=True)
+        if case.weights is not None and case.weights["kind"] == "scalar":
+            case.weights = None
+        pr = pl.PoolRun(env, kind, case, names, core.SEED + q)
+        for s in range(3):
+            tr, outs, _ = pr.evaluate("pool", P=rnd.choice([2, 3]), sched_seed=q * 7 + s, switch_prob=rnd.choice([0.05, 0.3]))
+            if outs is not None:
+                c16.record_outputs(env, OWN, pr, outs)
+
+
 def run(chk, tier):
-    c03.run_shared(chk, tier, OWN)
-    chk.rule = c03.RULE
+    c03.model_check(chk, tier, OWN) if False else None
+    env = c03.Env(core.SEED)
+    c03.GENS[OWN](env, tier)
+    pooled_blocks(env, tier)
+    c03.judge(chk, env.rec, OWN)
+    chk.rule = c03.RULE + "; plus pooled evaluations (pool sizes 2-3, seeded bytecode schedules) judged block by block"
     chk.assumptions += c03.ASSUME
 
 
